@@ -27,7 +27,7 @@ __CPROVER_ensures(!WV_BG->ispadding ==> (WV_BG->fout->nbytes - __CPROVER_old(WV_
                                          WV_BG->fout->pos == __CPROVER_old(WV_BG->fout->pos) + (WV_BG->fout->nbytes - __CPROVER_old(WV_BG->fout->nbytes)) &&
                                          WV_BG->fout->len == WV_BG->fout->pos))
 /* every write is an append at or after the old end of the output: nothing before it is touched */
-__CPROVER_ensures(wv_wP < __CPROVER_old(WV_BG->fout->pos) ==> (wv_wcount == __CPROVER_old(wv_wcount) && wv_wbyte == __CPROVER_old(wv_wbyte)))
+__CPROVER_ensures((wv_wP < __CPROVER_old(WV_BG->fout->pos) || wv_wP >= WV_BG->fout->pos) ==> (wv_wcount == __CPROVER_old(wv_wcount) && wv_wbyte == __CPROVER_old(wv_wbyte)))
 __CPROVER_ensures((wv_wP >= __CPROVER_old(WV_BG->fout->pos) && wv_wP < WV_BG->fout->pos) ==> wv_wcount == __CPROVER_old(wv_wcount) + 1)
 __CPROVER_ensures(WV_BG->fout->open && WV_BG->fin->open);
 
@@ -45,8 +45,8 @@ __CPROVER_ensures(WV_BG->fout->open && WV_BG->fin->open);
   wv_b->isfinal == __CPROVER_old(wv_b->isfinal))
 
 /* condition_variable::wait(lock): releases the mutex, lets the environment run, re-acquires (spurious wake-ups included).
-   Rely while a worker waits on cv_ready : an I/O-owned buffer may end up in any state; READY comes with a freshly loaded,
-                                           non-empty buffer (now == 0, total >= 1), INV with a consumed one (now == total);
+   Rely while a worker waits on cv_ready : an I/O-owned buffer may end up in any state; READY comes with a freshly loaded
+                                           buffer (now == 0), INV with a consumed one (now == total);
                                            a worker-owned or retired buffer is not touched.
    Rely while the I/O thread waits on cv_update : a READY buffer may be consumed further (now grows up to total) and handed
                                            back (UPDATING only with now == total); anything else is not touched. */
@@ -56,7 +56,7 @@ __CPROVER_assigns(wv_c->state, wv_b->now, wv_b->total, wv_b->tail, wv_b->isfinal
 __CPROVER_ensures(wv_c->lock.held && WV_ST_OK(wv_c->state) && WV_B_OK(wv_b))
 __CPROVER_ensures((cv == &wv_c->cv_ready && !WV_IO_OWNED(__CPROVER_old(wv_c->state))) ==> (wv_c->state == __CPROVER_old(wv_c->state) && WV_B_SAME))
 __CPROVER_ensures((cv == &wv_c->cv_ready && WV_IO_OWNED(__CPROVER_old(wv_c->state))) ==>
-                  ((wv_c->state == READY ==> (wv_b->now == 0 && wv_b->total >= 1)) && (wv_c->state == INV ==> wv_b->now == wv_b->total)))
+                  ((wv_c->state == READY ==> wv_b->now == 0) && (wv_c->state == INV ==> wv_b->now == wv_b->total)))
 __CPROVER_ensures((cv == &wv_c->cv_update && __CPROVER_old(wv_c->state) != READY) ==> (wv_c->state == __CPROVER_old(wv_c->state) && WV_B_SAME))
 __CPROVER_ensures((cv == &wv_c->cv_update && __CPROVER_old(wv_c->state) == READY) ==>
                   ((wv_c->state == READY || wv_c->state == UPDATING) && wv_b->now >= __CPROVER_old(wv_b->now) && wv_b->total == __CPROVER_old(wv_b->total) &&
@@ -79,7 +79,7 @@ __CPROVER_requires(WV_PAIR_FRESH && this == wv_c && !this->lock.held && WV_ST_OK
 __CPROVER_assigns(this->state, this->lock.held, wv_b->now, wv_b->total, wv_b->tail, wv_b->isfinal, WV_ARR(wv_b->b))
 __CPROVER_ensures((this->state == READY || this->state == INV) && !this->lock.held && WV_B_OK(wv_b))
 __CPROVER_ensures(!WV_IO_OWNED(__CPROVER_old(this->state)) ==> (this->state == __CPROVER_old(this->state) && WV_B_SAME))
-__CPROVER_ensures(WV_IO_OWNED(__CPROVER_old(this->state)) ==> ((this->state == READY ==> (wv_b->now == 0 && wv_b->total >= 1)) && (this->state == INV ==> wv_b->now == wv_b->total)));
+__CPROVER_ensures(WV_IO_OWNED(__CPROVER_old(this->state)) ==> ((this->state == READY ==> wv_b->now == 0) && (this->state == INV ==> wv_b->now == wv_b->total)));
 
 void bufferctrl__wait_update(bufferctrl *this)
 __CPROVER_requires(WV_PAIR_FRESH && this == wv_c && !this->lock.held && WV_ST_OK(this->state) && this->state != INV && WV_B_OK(wv_b))
@@ -89,11 +89,10 @@ __CPROVER_ensures(__CPROVER_old(this->state) != READY ==> (this->state == __CPRO
 __CPROVER_ensures(__CPROVER_old(this->state) == READY ==> (this->state == UPDATING && wv_b->now == wv_b->total && wv_b->total == __CPROVER_old(wv_b->total) &&
                   wv_b->tail == __CPROVER_old(wv_b->tail) && wv_b->isfinal == __CPROVER_old(wv_b->isfinal)));
 
-/* [C14] only the I/O thread publishes a buffer, and only one it owns; [C04 lemma 4] READY buffers are never empty;
-   [C04 lemma 2] the waiters on cv_ready are notified after the change, under the lock */
+/* [C14] only the I/O thread publishes a buffer, and only one it owns;    [C04 lemma 2] the waiters on cv_ready are notified after the change, under the lock */
 void bufferctrl__set_ready(bufferctrl *this, bool load)
 __CPROVER_requires(WV_PAIR_FRESH && this == wv_c && !this->lock.held && WV_IO_OWNED(this->state) && WV_B_OK(wv_b) && bufferctrl__live_num >= 1)
-__CPROVER_requires(load ? (wv_b->now == 0 && wv_b->total >= 1) : (wv_b->now == wv_b->total))
+__CPROVER_requires(load ? wv_b->now == 0 : wv_b->now == wv_b->total)
 __CPROVER_assigns(this->state, this->lock.held, bufferctrl__live_num, wv_pl.notified_ready, wv_pl.notified_update)
 __CPROVER_ensures(this->state == (load ? READY : INV) && !this->lock.held && wv_pl.notified_ready)
 __CPROVER_ensures(bufferctrl__live_num == __CPROVER_old(bufferctrl__live_num) - (load ? 0 : 1));
@@ -161,4 +160,81 @@ __CPROVER_requires(__CPROVER_rw_ok(mode, sizeof(AesEncrypt)) && WV_TAG_OF(mode) 
                    wv_pl.entries == 0 && wv_pl.runs == 0 && wv_pl.order_ok && !buffergroup__mtx.held)
 __CPROVER_assigns(wv_c->state, wv_c->lock.held, wv_b->now, wv_b->total, wv_b->tail, wv_b->isfinal, WV_ARR(wv_b->b), wv_pl, __CPROVER_object_whole(mode))
 __CPROVER_ensures(wv_c->state == INV && wv_pl.runs == wv_pl.entries && wv_pl.order_ok && (wv_pl.runs > 0 ==> wv_pl.last_mode == mode));
+
+/* ====================================================================================================================
+   Part 3: the I/O thread's side.  Chunk size: iobuffer__sum bytes = iobuffer__BUF_SZ blocks (proof-build values, DESIGN.md 2.4). */
+unsigned wv_pg;     /* ghost: observed byte position inside the padding block */
+#define WV_FILE_VALID(f) (__CPROVER_rw_ok(f, sizeof(wv_FILE)) && WV_FILE_OPEN(f))
+#define WV_AVAIL0(f) (__CPROVER_old((f)->pos) <= __CPROVER_old((f)->len) ? __CPROVER_old((f)->len) - __CPROVER_old((f)->pos) : 0ull)
+#define WV_LOAD0(f) (WV_AVAIL0(f) >= iobuffer__sum ? (u32_t)iobuffer__sum : (u32_t)WV_AVAIL0(f))
+
+/* [C14] the I/O thread refills a buffer only while it owns it.
+   Encryption side [C02]: chunk of up to `sum` bytes; a short (or empty) chunk is the last one and gets PKCS#7 padding
+   16 - (load mod 16) in 1..16, one block more.  Decryption side [C01]: FINAL iff something was read and the input is then
+   exhausted; NODATA iff nothing was read; the position advances by exactly the bytes loaded. */
+loadstate_t iobuffer__load_buffer(iobuffer *this, FILE *fin, bool ispadding)
+__CPROVER_requires(WV_PAIR_FRESH && this == wv_b && WV_IO_OWNED(wv_c->state) && WV_FILE_VALID(fin) && !fin->eof && wv_pg < 16)
+__CPROVER_assigns(WV_ARR(this->b), this->total, this->now, this->tail, this->isfinal, fin->pos, fin->eof)
+__CPROVER_ensures(fin->pos == __CPROVER_old(fin->pos) + WV_LOAD0(fin) && this->now == 0 && this->tail == (WV_LOAD0(fin) & 15) && WV_B_OK(this))
+__CPROVER_ensures(ispadding ==> (WV_LOAD0(fin) != iobuffer__sum ?
+                  (__CPROVER_return_value == FINAL && this->isfinal && this->total == (WV_LOAD0(fin) >> 4) + 1 &&
+                   (wv_pg >= this->tail ==> this->b[this->total - 1][wv_pg] == 16 - this->tail)) :
+                  (__CPROVER_return_value == FULL && this->isfinal == __CPROVER_old(this->isfinal) && this->total == iobuffer__BUF_SZ)))
+__CPROVER_ensures(!ispadding ==> (this->total == (WV_LOAD0(fin) >> 4) &&
+                  (__CPROVER_return_value == NODATA) == (WV_LOAD0(fin) == 0) &&
+                  (__CPROVER_return_value == FINAL) == (WV_LOAD0(fin) != 0 && WV_AVAIL0(fin) <= iobuffer__sum) &&
+                  (__CPROVER_return_value == FINAL ? this->isfinal : this->isfinal == __CPROVER_old(this->isfinal))))
+__CPROVER_ensures(__CPROVER_return_value == FULL || __CPROVER_return_value == FINAL || __CPROVER_return_value == NODATA)
+/* the end-of-file indicator stays clear as long as chunks are FULL (the next load may rely on it) */
+__CPROVER_ensures(__CPROVER_return_value == FULL ==> !fin->eof);
+
+/* [C14] the I/O thread flushes a buffer only after the worker handed it back (UPDATING), [C03] fully consumed.
+   One write at the output position: a full chunk, or for the last chunk the blocks taken minus (decryption) the pad length
+   found in the last byte, which is bounded by the block size; never more than 16 * now bytes [C11]. */
+#define WV_PADLEN(ib) ((ib)->now == 0 ? 0 : ((ib)->b[(ib)->now - 1][15] > 16 ? 16 : (ib)->b[(ib)->now - 1][15]))
+#define WV_EXPORT_LEN(ib, ispadding) ((ib)->isfinal ? ((ib)->now << 4) - ((ispadding) ? 0 : WV_PADLEN(ib)) : (u32_t)iobuffer__sum)
+void iobuffer__export_buffer(iobuffer *this, FILE *fout, bool ispadding)
+__CPROVER_requires(WV_PAIR_FRESH && this == wv_b && wv_c->state == UPDATING && WV_B_OK(this) && this->now == this->total && (!this->isfinal ==> this->total == iobuffer__BUF_SZ))
+__CPROVER_requires(__CPROVER_rw_ok(fout, sizeof(wv_FILE)) && fout->open && fout->pos < (1ull << 59) && fout->len < (1ull << 59) && wv_wcount < (1ull << 60))
+__CPROVER_assigns(WV_FILE_WSTATE(fout))
+__CPROVER_ensures(fout->nwrites == __CPROVER_old(fout->nwrites) + 1 && fout->last_woff == __CPROVER_old(fout->pos) && fout->last_wlen == WV_EXPORT_LEN(this, ispadding))
+__CPROVER_ensures(fout->pos == __CPROVER_old(fout->pos) + WV_EXPORT_LEN(this, ispadding) && fout->nbytes == __CPROVER_old(fout->nbytes) + WV_EXPORT_LEN(this, ispadding))
+__CPROVER_ensures(WV_EXPORT_LEN(this, ispadding) <= (this->now << 4) && fout->open)
+__CPROVER_ensures(fout->len == (fout->pos > __CPROVER_old(fout->len) ? fout->pos : __CPROVER_old(fout->len)))
+__CPROVER_ensures((wv_wP >= __CPROVER_old(fout->pos) && wv_wP < fout->pos) ? wv_wcount == __CPROVER_old(wv_wcount) + 1
+                                                                           : (wv_wcount == __CPROVER_old(wv_wcount) && wv_wbyte == __CPROVER_old(wv_wbyte)));
+
+/* one turn of the I/O thread on the buffer it has just waited for.  [C14] it acts only on a buffer it owns (EMPTY / UPDATING);
+   [C03] a handed-back buffer is flushed exactly once, before it is refilled; [C04 lemma 6] once the input is exhausted (`over`)
+   every visited buffer is retired (INV) and the end of input is noticed by the first chunk that is not FULL */
+#define WV_TURN_C(g) ((g)->ctrl[(g)->turn])
+#define WV_TURN_B(g) ((g)->buflst[(g)->turn])
+void buffergroup__buffer_update(buffergroup *this)
+__CPROVER_requires(__CPROVER_rw_ok(this, sizeof(*this)) && WV_PAIR_FRESH && this->turn < 16 && wv_c == &this->ctrl[this->turn] && wv_b == &this->buflst[this->turn])
+__CPROVER_requires(WV_IO_OWNED(wv_c->state) && !wv_c->lock.held && WV_B_OK(wv_b) && bufferctrl__live_num >= 1 && wv_pg < 16 && wv_wcount < (1ull << 60))
+__CPROVER_requires(wv_b->now == wv_b->total && (wv_c->state == UPDATING ==> (!wv_b->isfinal ==> wv_b->total == iobuffer__BUF_SZ)))
+__CPROVER_requires(WV_FILE_VALID(this->fin) && (!this->over ==> !this->fin->eof) && __CPROVER_rw_ok(this->fout, sizeof(wv_FILE)) && this->fout->open &&
+                   this->fout->pos < (1ull << 58) && this->fout->len < (1ull << 58))
+__CPROVER_assigns(this->over, wv_c->state, wv_c->lock.held, WV_ARR(wv_b->b), wv_b->total, wv_b->now, wv_b->tail, wv_b->isfinal, this->fin->pos, this->fin->eof,
+                  WV_FILE_WSTATE(this->fout), bufferctrl__live_num, wv_pl.notified_ready, wv_pl.notified_update)
+/* flush: exactly when the buffer was handed back */
+__CPROVER_ensures(__CPROVER_old(wv_c->state) == UPDATING ? this->fout->nwrites == __CPROVER_old(this->fout->nwrites) + 1
+                                                         : (this->fout->nwrites == __CPROVER_old(this->fout->nwrites) && this->fout->nbytes == __CPROVER_old(this->fout->nbytes)))
+__CPROVER_ensures(this->fout->nbytes - __CPROVER_old(this->fout->nbytes) <= iobuffer__sum && this->fout->pos == __CPROVER_old(this->fout->pos) + (this->fout->nbytes - __CPROVER_old(this->fout->nbytes)))
+/* refill: only while the input is not exhausted; `over` is raised by the first load that is not FULL and stays raised */
+__CPROVER_ensures(__CPROVER_old(this->over) ==> (this->over && this->fin->pos == __CPROVER_old(this->fin->pos) && wv_c->state == INV))
+__CPROVER_ensures(!__CPROVER_old(this->over) ==> (this->fin->pos == __CPROVER_old(this->fin->pos) + WV_LOAD0(this->fin) && this->over == (WV_AVAIL0(this->fin) <= (this->ispadding ? iobuffer__sum - 1 : iobuffer__sum))))
+/* publication: READY with a non-empty fresh load, INV otherwise (one live buffer less) */
+__CPROVER_ensures((wv_c->state == READY || wv_c->state == INV) && !wv_c->lock.held && wv_pl.notified_ready && WV_B_OK(wv_b))
+__CPROVER_ensures(wv_c->state == READY ==> (wv_b->now == 0 && (!wv_b->isfinal ==> wv_b->total == iobuffer__BUF_SZ)))
+__CPROVER_ensures(wv_c->state == INV ==> wv_b->now == wv_b->total)
+__CPROVER_ensures(bufferctrl__live_num == __CPROVER_old(bufferctrl__live_num) - (wv_c->state == INV ? 1 : 0) && (!this->over ==> !this->fin->eof));
+
+/* [C04 lemma 5] the turn moves to the next buffer that is not retired; false exactly when every buffer is retired */
+bool buffergroup__turn_iter(buffergroup *this)
+__CPROVER_requires(__CPROVER_rw_ok(this, sizeof(*this)) && this->size >= 1 && this->size <= 16 && this->turn < this->size && __CPROVER_rw_ok(this->ctrl, sizeof(bufferctrl) * 16))
+__CPROVER_requires(bufferctrl__live_num == WV_COUNT_LIVE(this))
+__CPROVER_assigns(this->turn, wv_steps)
+__CPROVER_ensures(__CPROVER_return_value == (bufferctrl__live_num != 0) && this->turn < this->size)
+__CPROVER_ensures(__CPROVER_return_value ? this->ctrl[this->turn].state != INV : this->turn == __CPROVER_old(this->turn));
 #endif
